@@ -279,6 +279,38 @@ def build_binaries(ctx):
     return not bad
 
 
+GH_ORDER = {'HashSet': ('H', (0, 2, 3, 1)), 'TreeSet': ('T', (0, 3, 1, 2))}   # harness handle order -> generated parameter order
+def gen_vs_code(ctx, impl_lines):
+    """direct differential run of the GENERATED Swap / MoveCtor (TreeSet, HashSet): the harness recorded the raw fields
+    (crew pointer, count, storage pointers / capacity; renamed injectively) of both real objects before and after every swap,
+    move construction and move assignment; the extracted generated functions are applied to the 'before' fields and must give
+    the 'after' fields."""
+    cases, answers = [], []
+    for l in impl_lines:
+        parts = l.split(' | ')
+        if len(parts) < 3 or not parts[2].startswith('gh='): continue
+        w = parts[2][3:].split()
+        if len(w) != 19 or w[10] != '=' or w[1] not in GH_ORDER: continue
+        tag, order = GH_ORDER[w[1]]
+        re4 = lambda v: [v[i] for i in order]
+        cases.append(' '.join([w[0], tag] + re4(w[2:6]) + re4(w[6:10])))
+        answers.append(' '.join(re4(w[11:15]) + re4(w[15:19])))
+    pairs = sorted(set(zip(cases, answers)))
+    ctx.coverage['generated_vs_code_runs'] = {'recorded': len(cases), 'distinct': len(pairs)}
+    if not pairs:
+        ctx.tie_obligations.append({'name': 'generated Swap / MoveCtor == real objects (raw fields)', 'ok': False, 'error': 'no recorded run'})
+        ctx.stage('corr:generated-vs-code', False, 'the harness recorded no raw-field run')
+        return
+    apath = os.path.join(ctx.build, 'generated-vs-code.answers')
+    open(apath, 'w').write('\n'.join(a for _, a in pairs) + '\n')
+    mism, _ = ctx.correspond('generated-vs-code', [c for c, _ in pairs], ['python3', os.path.join(ctx.pdir, 'run_impl.py'), 'tie', apath],
+                             [ctx.model_exe, 'gen'])
+    ctx.evaluations -= len(pairs)      # recorded from the runs already counted
+    ctx.tie_obligations.append({'name': 'generated TreeSet/HashSet Swap, MoveCtor (and MoveCtor+Swap = move assignment) == raw fields of the real objects on %d recorded runs (%d distinct)' % (len(cases), len(pairs)), 'ok': not mism})
+    for (i, c, a, b) in mism[:2]:
+        ctx.violation('generated Swap / MoveCtor and the real objects disagree on the raw fields: ' + c, {'case': c, 'impl': a, 'model': b}, found_input=True)
+
+
 def evaluate(ctx, cases, lines):
     """the oracle verdicts printed by the harness -> violations / known findings.  returns list of (case, line, why, key)"""
     bad = []
@@ -843,6 +875,8 @@ def run(ctx):
         for (i, c, a, b) in mism[:3]:
             ctx.violation('pointer-level model and implementation disagree: ' + c, {'case': c, 'impl': a, 'model': b,
                           'cmd': 'echo "%s" | build/C14/harness_%s' % (c, c.split()[0])}, found_input=True)
+    if have_model:
+        gen_vs_code(ctx, impl_lines)
     # the property predicate on the real code (always; bigger generator when a stage broke = the search stage)
     if any(not s['ok'] for s in ctx.stages.values()) and scale == 1 and not ctx.violations:
         ctx.log('a stage broke: searching the implementation with the thorough generator')
@@ -868,6 +902,10 @@ def run(ctx):
     ctx.coverage['precondition_violating_swaps_skipped'] = sum(1 for c in cases if precondition_violated(c))
     ctx.coverage['input_distribution'] = measure_distribution(cases, impl_lines)
     ctx.coverage['trait_combinations'] = sorted(set(c.split()[0] for c in cases))
+    if os.environ.get('C14_TRAITS'):
+        # an aimed run (mutant re-check) covers only some binaries: it must never be mistaken for a pass of the whole check
+        ctx.coverage['restricted_by_env'] = 'C14_TRAITS=' + os.environ['C14_TRAITS']
+        ctx.stage('full-coverage', False, 'C14_TRAITS=%s restricts the binaries and cases: a restricted run cannot pass' % os.environ['C14_TRAITS'])
     for c in cases[::max(1, len(cases) // 7)][:7]:
         ctx.add_sample(c)
     return ctx.finish(rule=RULE)
